@@ -2,6 +2,7 @@ SPECIFICATION Spec
 CONSTANTS
   MaxNodes = 4
   MaxTmpl = 2
+  Family = "all"
   Emit = 3
 INVARIANTS InvStaticNN InvStaticN InvIdentity InvCounts InvFunctional InvFunctionalN InvStepLocal InvEmit
 CHECK_DEADLOCK FALSE
